@@ -55,12 +55,16 @@ def render_case(draw, max_obj=8, max_sp=6, max_fam=4, perturb_params=True, backs
         params["event_label_width"] = draw(st.one_of(st.none(), st.integers(1, 30)))
         params["species_label_width"] = draw(st.one_of(st.none(), st.integers(1, 30)))
     case["_params"] = params
+    case["_unnamed"] = gen.chance(draw, 1, 3)
     return case
 
 
-def fresh_output(case, label_kind=None):
+def fresh_output(case, label_kind=None, names=None):
     """A new package output object for the case (fresh trees every time:
-    layout.compute adds colour features to the object tree)."""
+    layout.compute adds colour features to the object tree).  If the case
+    asks for it (`_unnamed`), the names of all ancestral nodes of both trees
+    are blanked after construction (ancestors need no names in the Python
+    API); `names` receives {node object: original name}."""
     from superrec2.model.reconciliation import (
         ReconciliationInput, ReconciliationOutput, SuperReconciliationInput, SuperReconciliationOutput,
     )
@@ -74,11 +78,20 @@ def fresh_output(case, label_kind=None):
     onode = {n.name: n for n in inp.object_tree.traverse()}
     snode = {n.name: n for n in inp.species_lca.tree.traverse()}
     mo = {onode[k]: snode[v] for k, v in case["_mapping"].items()}
+    if names is not None:
+        names.update({n: k for k, n in onode.items()})
+        names.update({n: k for k, n in snode.items()})
     if kind == "none":
-        return ReconciliationOutput(inp, mo)
-    lab = case["_lab_o"] if kind == "ordered" else case["_lab_u"]
-    syn = {onode[k]: list(v) for k, v in lab.items()}
-    return SuperReconciliationOutput(input=inp, object_species=mo, syntenies=syn, ordered=(kind == "ordered"))
+        out = ReconciliationOutput(inp, mo)
+    else:
+        lab = case["_lab_o"] if kind == "ordered" else case["_lab_u"]
+        syn = {onode[k]: list(v) for k, v in lab.items()}
+        out = SuperReconciliationOutput(input=inp, object_species=mo, syntenies=syn, ordered=(kind == "ordered"))
+    if case.get("_unnamed"):
+        for node in list(onode.values()) + list(snode.values()):
+            if not node.is_leaf():
+                node.name = ""
+    return out
 
 
 def draw_params(case, orientation):
@@ -92,12 +105,14 @@ def compute(case, orientation, swap=False, label_kind=None, render=True):
     from superrec2.render import layout as layout_mod
     from superrec2.render import tikz
 
-    out = fresh_output(case, label_kind)
+    names = {}
+    out = fresh_output(case, label_kind, names)
     params = draw_params(case, orientation)
     sizes = [tuple(s) for s in case["_sizes"]]
     with stubs.stub_tex(sizes, swap=swap, min_leaf=params.extant_gene_diameter) as stub:
         lay = pkg.guarded(layout_mod.compute, out, params)
         code = pkg.guarded(tikz.render, out, lay, params) if render else None
+    stub.names = names
     return out, lay, code, params, stub
 
 
